@@ -152,6 +152,10 @@ impl OpStore for SimpleOpStore {
         }
 
         let path = self.views_dir().join(id.hex());
+        #[cfg(jj_vcs_jj_verif)]
+        crate::verif::point("opstore:read_view", &path)
+            .context(&path)
+            .map_err(|err| io_to_read_error(err, id))?;
         let buf = fs::read(&path)
             .context(&path)
             .map_err(|err| io_to_read_error(err, id))?;
@@ -189,6 +193,10 @@ impl OpStore for SimpleOpStore {
         }
 
         let path = self.operations_dir().join(id.hex());
+        #[cfg(jj_vcs_jj_verif)]
+        crate::verif::point("opstore:read_operation", &path)
+            .context(&path)
+            .map_err(|err| io_to_read_error(err, id))?;
         let buf = fs::read(&path)
             .context(&path)
             .map_err(|err| io_to_read_error(err, id))?;
